@@ -367,6 +367,22 @@ def build_pool(ctx, rng, n):
         spec['classes'].append({
             'name': 'Only%d' % i, 'kind': 'plain',
             'params': [{'name': 'only%d_id' % i, 'type': 'int'}]})
+        # classes with a (shared, inherited) _yatiml_defaults dict whose
+        # dumps remove defaulted attributes: user-class state that a dump
+        # must not touch
+        spec['classes'].append({
+            'name': 'DBase', 'kind': 'plain', 'abc': True,
+            'params': [{'name': 'dtag', 'type': 'str'},
+                       {'name': 'dwidth', 'type': 'int', 'default': 1}],
+            'defaults_override': {'zz_unused': 1}})
+        for j, dflt in enumerate(rng.sample([1, 2, 3, 5], 2)):
+            spec['classes'].append({
+                'name': 'DKid%d' % j, 'kind': 'plain', 'bases': ['DBase'],
+                'params': [{'name': 'dtag', 'type': 'str'},
+                           {'name': 'dkid%d_id' % j, 'type': 'int'},
+                           {'name': 'dwidth', 'type': 'int',
+                            'default': dflt}],
+                'sweeten': [['remove_defaults']], 'savorize': [['record']]})
         try:
             H.model_of(spec)
         except Exception:
@@ -475,6 +491,17 @@ def arg_pool(ctx, rng, specs, i):
                             {'value': V.encode_value(v)},
                             {'indent': rng.choice([None, 2]),
                              'k': rng.randint(1, 9)}, 'failing-sink'))
+        for c in spec['classes']:
+            if c.get('sweeten') == [['remove_defaults']] and c.get(
+                    'registered', True) and not m.is_abstract(c['name']):
+                for _ in range(2):
+                    try:
+                        dv = g2.instance(c['name'], 2)
+                    except (V.NoValue, RecursionError):
+                        continue
+                    out.append(('dumps', None,
+                                {'value': V.encode_value(dv)}, {},
+                                'defaults-value'))
         # shared sub-object: JSON dump aborts half-way by design
         shared = [1, {'k': 'v'}]
         out.append(('dumps_json', None, {'value': V.encode_value(
